@@ -956,7 +956,18 @@ func (e *enumerator) walkFn(fn *ssa.Function, ev []string, depth int, k func(ev 
 						}
 					}
 				}
-				if cal != nil && cal != fn && depth < e.depthLimit() && lbl == "" && e.bearsEvents(cal, 0) && len(cal.Params) == len(callArgs) {
+				// a function value handed to the callee may be called there: its events count
+				argEvents := false
+				if cal != nil && cal != fn && lbl == "" && e.w.InModule(cal) {
+					for _, a := range callArgs {
+						if _, isSig := a.Type().Underlying().(*types.Signature); isSig {
+							if f, _ := e.w.calleeOfValue(e.resolve(a, st)); f != nil && f != fn && f != cal && e.bearsEvents(f, 0) {
+								argEvents = true
+							}
+						}
+					}
+				}
+				if cal != nil && cal != fn && depth < e.depthLimit() && lbl == "" && (e.bearsEvents(cal, 0) || argEvents) && len(cal.Params) == len(callArgs) {
 					env := map[*ssa.Parameter]string{}
 					for j, p := range cal.Params {
 						// arguments are printed with helper results resolved, so a value
